@@ -295,6 +295,8 @@ type Fault struct {
 	parkOnce sync.Once
 
 	readsAfterFail int
+	glitches       int
+	glitched       int
 }
 
 // ReadsAfterFail: how many Reads were attempted after the injected read failure had been reported.
@@ -304,8 +306,21 @@ func NewFault(c net.Conn) *Fault {
 	return &Fault{Conn: c, ReadFailAt: -1, ReadErr: ErrInjected, WriteErr: ErrInjected}
 }
 
+// Glitch makes the next n Reads fail with a temporary timeout error without consuming or
+// losing anything: what an idle-timeout on a socket looks like. The stream continues.
+func (f *Fault) Glitch(n int) { f.mu.Lock(); f.glitches += n; f.mu.Unlock() }
+
+// Glitched: how many such errors have been delivered.
+func (f *Fault) Glitched() int { f.mu.Lock(); defer f.mu.Unlock(); return f.glitched }
+
 func (f *Fault) Read(p []byte) (int, error) {
 	f.mu.Lock()
+	if f.glitches > 0 {
+		f.glitches--
+		f.glitched++
+		f.mu.Unlock()
+		return 0, &NetErr{Msg: "read mem: i/o timeout", IsTimeout: true, IsTemporary: true}
+	}
 	if f.rfailed {
 		f.readsAfterFail++
 		f.mu.Unlock()
